@@ -150,6 +150,27 @@ def step (_ : Unit) (ws : List String) : Unit × String :=
         | some body => ((), joinSp [idx, hexOfBytes body, allDecoders t BEVE body])
         | none => bad idx
     | _, _, _, _ => bad idx
+  | ["seq", idx, c, k, s1, s2, qafter, qlen, _cap, p1, p2] =>
+    -- two body setters in a row on one builder; the frame of `build()`
+    match tyOf c k, qlen.toNat?, unhex p1, unhex p2 with
+    | some t, some qlen, some p1, some p2 =>
+      let text (p : Bytes) : Bytes := (hexOfBytes p).toUTF8.toList
+      let mk (name : String) (p : Bytes) : Option Setter :=
+        if p.length % (2 * t.width) ≠ 0 then none
+        else if name = "bytes" then some (.bytes p)
+        else if name = "utf8" then some (.utf8 (text p))
+        else if name = "json" then some (.json (0x22 :: (text p ++ [0x22])))
+        else if name = "beve" then some (.beve t (chunks t.width (p.length / t.width) p))
+        else if name = "typed" then some (.typed t (chunks t.width (p.length / t.width) p))
+        else if name = "complex" then some (.complex t (chunks (2 * t.width) (p.length / (2 * t.width)) p))
+        else if name = "aligned" then some (.aligned t (chunks t.width (p.length / t.width) p))
+        else none
+      match mk s1 p1, mk s2 p2 with
+      | some a, some b =>
+        let q : Bytes := if qlen = 0 then [] else 0x2f :: List.replicate (qlen - 1) 0x71
+        ((), joinSp [idx, hexOfBytes (buildSeq F 7 q (qafter = "1") [a, b]).toVec])
+      | _, _ => bad idx
+    | _, _, _, _ => bad idx
   | ["form", idx, c, k, form, n, p] =>
     -- the decoder's own element type in each wire form
     match tyOf c k, n.toNat?, unhex p with
